@@ -37,7 +37,10 @@ MANIFEST = {
                "attributes, enumeration literals; packages with member paths; generalisations / realisations; ASSOCIATIONS with both ends (class path, "
                "multiplicity or none, aggregation kind, visibility code or the static code, getter / setter / read-only flags; the ends in either order: "
                "rassoc_of specifies the order-dependent defaults of Association.ParseAssociation); values (defaults, initial values, multiplicities, "
-               "modifiers, documentation) may hold ','; other shapes; referenced elements; every "
+               "modifiers, documentation) may hold ','; documentation may be ANY quoted text (line breaks, apostrophes, parentheses: the specification "
+               "then states what mass_replace leaves of it); other shapes; referenced elements; every element with its own line-break style and, between "
+               "its properties, any number of INERT properties exactly as written (scalars, reference lists, owned elements the reader ignores such as "
+               "model views and qualifiers, free text such as an HTML documentation); every "
                "element's properties in ANY order between any noise properties) in the domain sdiagram_ok (extracted, evaluated on every generated "
                "diagram): adaptor (encode_project D) = Some (cdiagram_of D), object for object (C19_adaptor_roundtrip_objects: load = rdiagram_of D: "
                "names, namespaces from the package chain, stereotype flags, visibility, parameters, realisation vs generalisation, the shapes of the "
@@ -52,14 +55,15 @@ MANIFEST = {
                "for byte; ALL 39 and 49 shipped blobs lie in the text domain -- 38 and 40 before the repair; one of them, an association whose NAME "
                "holds a colon, through C19_adaptor_text_transparent_colon (row names with colons: the header id:name:type is cut at every colon, "
                "top_pv_c states the resulting entries); on all of them the reader model returns the stated dictionary), "
-               "C19_adaptor_semantic_calibration (both shipped diagrams re-expressed as semantic diagrams, Gen/UmlSemShipped.v -- content as the "
-               "real adaptor reads it, layout of the semantic writer: BOTH lie in sdiagram_ok), C19_adaptor_source_shape (literal pins, SplitOutsideQuotes "
+               "C19_adaptor_semantic_calibration (THE two shipped class diagrams as semantic diagrams, Gen/UmlSemShipped.v regenerated from blob.xml: "
+               "157 / 357 meaningful and 461 / 999 inert properties; encode_project reproduces the shipped rows BYTE FOR BYTE and BOTH lie in "
+               "sdiagram_ok: the read-back theorem speaks about the shipped project itself), C19_adaptor_source_shape (literal pins, SplitOutsideQuotes "
                "included), C19_adaptor_name_refuted (operator< is read as operator: K-C19-7). WRITER ASSUMPTION: Model/UmlWriter.v + Model/UmlSem.v tree_of (how Visual "
-               "Paradigm lays a class diagram out), calibrated on the one shipped project at the structured-blob level. OUTSIDE THE SEMANTIC DOMAIN "
-               "(inside the text / structural theorems only): inert nested elements (ModelView, Qualifier), reference lists and free-text HTML "
-               "properties among an element's own properties (the semantic noise is scalar properties), names of classes / packages / members "
-               "with ':' (association names may hold colons) or with the characters mass_replace deletes (K-C19-7). TIES: the semantic diagram built from an object graph means that object graph (harness twin vs "
-               "rdiagram_of); the extracted "
+               "Paradigm lays a class diagram out), calibrated on the one shipped project at the structured-blob level. OUTSIDE THE SEMANTIC DOMAIN: names of classes / packages / members with ':' (association names may hold colons) or with the "
+               "characters mass_replace deletes (K-C19-7); inert properties whose keys collide with a key the reader looks up in that kind of "
+               "element (they would not be inert); rows whose bytes hold an apostrophe but no double quote. TIES: the semantic diagram built from an object graph means that object graph (harness twin vs "
+               "rdiagram_of); the REAL adaptor on the SHIPPED file = the extracted rdiagram_of of the shipped semantic diagrams, and the extracted "
+               "encode_project of them = the shipped rows; the extracted "
                "writer encode_project writes project files that the REAL ExtractClassDiagram reads, compared field for field with the extracted "
                "rdiagram_of inside the domain; the Coq printer vs its Python twin tree by tree; parser / rendering helpers function level; damaged "
                "projects with agreeing exceptions; a share of the cases generated through Generate.UML from a synthesised project file.",
@@ -76,7 +80,7 @@ RULE = ("the two shipped class diagrams and mutants of them (1-4 random edits of
         "generator produced at least one class with operations; distinct = distinct (diagram, edits, options)")
 ASSUMPTIONS = [
     "operation visibilities are public/protected/private: a theorem for every diagram read from a project file (C19_adaptor_visibilities); a 'package' operation exists only in in-memory mutants (K-C19-4)",
-    "adaptor (sdiagram_ok): names and ids are plain text (printable ASCII without = < > ; \\ \" ' ( ) , { } and without leading/trailing blanks), values likewise but ',' allowed unless nothing else is left, no ':' in ids and element names, noise = scalar properties whose keys are not among the reader's keys, no property key written twice, type names unchanged by CleanModifiersFromType, referenced ids known, every element drawn once, a class on at most one package path; association ends attached to known paths, ids / names of associations and ends not containing the reader's probe words (documentation_plain / readOnly)",
+    "adaptor (sdiagram_ok): names and ids are plain text (printable ASCII without = < > ; \\ \" ' ( ) , { } and without leading/trailing blanks), values likewise but ',' allowed unless nothing else is left (documentation: any quoted text without '=' and '<'), no ':' in ids and element names (association names may hold them), inert properties (any scalar / reference list / owned elements / free text in the text domain) whose keys are none of the keys the reader looks up in that kind of element and whose owned elements are not of a member type, line breaks CR LF or LF per element, no property key written twice, type names unchanged by CleanModifiersFromType, referenced ids known, every element drawn once, a class on at most one package path; association ends attached to known paths, ids / names of associations and ends not containing the reader's probe words (documentation_plain / readOnly)",
     "adaptor (text domain wf_node / nbq_node / quote_ok): free text only inside closed double-quoted values; no brace in ids, names, types, keys, reference ids and unquoted values; no ':' in ids and names (K-C19-7)",
     "no realisation cycle among pure virtual interfaces (C19_cycle_refuted: RecursionError otherwise)",
     "files_hyp: class names non-empty without '.' and '/', namespace not ending in a separator, distinct output paths (two classes of one name in different packages collide when namespace folders are off: K-C19-5 is exactly distinct_paths = false)",
@@ -468,6 +472,32 @@ def semantic_ties(ctx):
             ctx.count("semantic_outside_domain_%s" % ("agrees" if real == want else "differs"))
 
 
+def shipped_semantic_tie(ctx):
+    """the two shipped class diagrams as SEMANTIC diagrams with every property the model has no meaning for kept as an inert property
+    (translator.umlblob.semantic_real, the source of Gen/UmlSemShipped.v): the extracted domain predicate accepts them, the extracted
+    writer encode_project reproduces the shipped rows byte for byte, and the REAL adaptor reading the SHIPPED project file returns
+    exactly the extracted specification rdiagram_of -- C19_adaptor_roundtrip observed on the real data"""
+    from translator import umlblob as tu
+    km = ctx.km
+    rows = {name: {r[0]: r for r in [x[1] for x in drawn] + refd} for (_d, name, drawn, refd) in tu.class_diagram_rows()}
+    for name, S in tu.semantic_real():
+        label = name.decode()
+        ctx.case(("shipped-semantic", label), nontrivial=True)
+        if km.call("us_ok", S) != b"1":
+            ctx.tie_broken("the shipped class diagram %s is outside sdiagram_ok (Gen/UmlSemShipped.v calibration)" % label, {"why": repr(km.call("us_why", S))[:600]})
+            continue
+        db = vs.db_of_v(km.call("us_encode", S))
+        bad = [m[0] for m in db[2] if m[0] not in rows[name] or rows[name][m[0]][4] != m[4]]
+        if bad or len(db[2]) != len(rows[name]):
+            ctx.tie_broken("encode_project of the semantic form of %s does not reproduce the shipped rows" % label, {"rows": repr(bad[:5])})
+        real, _cd, err = ub.real_load(us.BLOB_XML, name)
+        if real != [km.call("us_rdiagram", S)]:
+            ctx.violation("the shipped class diagram %s (inside the domain of C19_adaptor_roundtrip) is not read as specified: %s" % (label, err),
+                          {"finding_key": "uml-adaptor:shipped-semantic-roundtrip", "finding_class": "uml-adaptor", "label": label, "mut_seed": 0, "nedits": 0,
+                           "shipped_semantic": True})
+        ctx.count("shipped_semantic_in_domain")
+
+
 def separator_probe(ctx):
     """outside the domain of the adaptor theorem (C19_adaptor_name_refuted): an operation called operator< in a project file"""
     cd = us.load("TestClassDiagram")
@@ -653,6 +683,7 @@ def run(ctx):
         adaptor_ties(ctx)
         printer_tie(ctx)
         semantic_ties(ctx)
+        shipped_semantic_tie(ctx)
     separator_probe(ctx)
     for detail in injection_probe(ctx):
         ctx.violation(detail, {"finding_key": "uml-adaptor:free-text-injection", "finding_class": "uml-adaptor:free-text-injection", "label": "TestClassDiagram",
@@ -703,6 +734,11 @@ def replay(ctx, data):
     if data.get("no_failing_input_found"):
         print(json.dumps(data.get("no_longer_checks"), indent=1, default=repr)[:3000])
         return False
+    if data.get("shipped_semantic"):
+        before = len(ctx.violations) + len(ctx.known)
+        if ctx.km is not None:
+            shipped_semantic_tie(ctx)
+        return len(ctx.violations) + len(ctx.known) == before
     if data.get("injection_probe"):
         return not injection_probe(ctx)
     if data.get("separator_probe"):
